@@ -1433,14 +1433,26 @@ impl Relation {
     pub fn architectures(&self) -> Option<impl Iterator<Item = String> + '_> {
         let architectures = self.0.children().find(|n| n.kind() == ARCHITECTURES)?;
 
-        Some(architectures.children_with_tokens().filter_map(|node| {
-            let token = node.as_token()?;
-            if token.kind() == IDENT {
-                Some(token.text().to_string())
-            } else {
-                None
-            }
-        }))
+        // A negated architecture ("!amd64") is returned with its '!'.
+        let mut negated = false;
+        Some(
+            architectures
+                .children_with_tokens()
+                .filter_map(move |node| {
+                    let token = node.as_token()?;
+                    match token.kind() {
+                        NOT => {
+                            negated = true;
+                            None
+                        }
+                        IDENT if std::mem::take(&mut negated) => {
+                            Some(format!("!{}", token.text()))
+                        }
+                        IDENT => Some(token.text().to_string()),
+                        _ => None,
+                    }
+                }),
+        )
     }
 
     /// Returns an iterator over the build profiles for this relation
